@@ -27,6 +27,9 @@ package format
 //@   ensures result == ite(big, len(t) / 6, len(t) / 3)
 //@   noalloc[C17]
 
+//@ define SORTS(T, s, n) = (forall i, j :: 0 <= i && i < j && j < n ==> smallTag(T, s, i) < smallTag(T, s, j))
+//@ define SORTB(T, s, n) = (forall i, j :: 0 <= i && i < j && j < n ==> bigTag(T, s, i) < bigTag(T, s, j))
+
 // ---- message table: lookup by tag (binary search over unsafe reads)
 
 //@ func (messageTable).offset_small
@@ -69,6 +72,10 @@ package format
 //@   ensures[C01,C16] !t.big && result >= 0 ==> exists k :: 0 <= k && k < len(t.table) / 3 && smallTag(mem(t.table), lo(t.table), k) == tag && smallOff(mem(t.table), lo(t.table), k) == result
 //@   ensures[C01,C16] t.big && result >= 0 ==> exists k :: 0 <= k && k < len(t.table) / 6 && bigTag(mem(t.table), lo(t.table), k) == tag && bigOff(mem(t.table), lo(t.table), k) == result
 //@   noalloc[C17]
+//@   ensures[C01,C16] !t.big && SORTS(mem(t.table), lo(t.table), len(t.table) / 3) ==> (forall k :: 0 <= k && k < len(t.table) / 3 && smallTag(mem(t.table), lo(t.table), k) == tag ==> result == smallOff(mem(t.table), lo(t.table), k))
+//@   ensures[C01,C16] t.big && SORTB(mem(t.table), lo(t.table), len(t.table) / 6) ==> (forall k :: 0 <= k && k < len(t.table) / 6 && bigTag(mem(t.table), lo(t.table), k) == tag ==> result == bigOff(mem(t.table), lo(t.table), k))
+//@   ensures[C01,C16] !t.big && SORTS(mem(t.table), lo(t.table), len(t.table) / 3) && (forall k :: 0 <= k && k < len(t.table) / 3 ==> smallTag(mem(t.table), lo(t.table), k) != tag) ==> result == 0 - 1
+//@   ensures[C01,C16] t.big && SORTB(mem(t.table), lo(t.table), len(t.table) / 6) && (forall k :: 0 <= k && k < len(t.table) / 6 ==> bigTag(mem(t.table), lo(t.table), k) != tag) ==> result == 0 - 1
 
 // ---- message table: access by index
 
